@@ -11,7 +11,7 @@ def key(v, ev):
     pred = v.get("pred")
     if pred in ("DecodeEncode", "EncodeDecode"):
         return f"{pred}:mode={info.get('m')}"
-    if pred in ("CodePageRoundTrip", "TypedRoundTrip"):
+    if pred in ("CodePageRoundTrip", "TypedRoundTrip", "TypedCode"):
         if ev and ev.get("site"):
             return f"{pred}:{info.get('conv')}:panic@{ev['site']}"
         return f"{pred}:{info.get('conv')}:{info.get('code', info.get('ch'))}"
